@@ -79,9 +79,50 @@ func ruleFlagOps(p *Prog, r *Out) {
 			t = squash(p.text(e))
 		}
 		// `flags ^ f` is also a delete when every caller removes a flag that is set; accept the exact forms the tree uses
-		ok := t == rc+"&^"+pa || t == rc+"^"+pa
-		r.check(ok, "Del clears the bits", p.pos(fd.Pos()), "flags &^ f", "FrameFlags.Del no longer clears the given bits")
+		ok := t == rc+"&^"+pa
+		r.check(ok, "Del clears the bits", p.pos(fd.Pos()), "flags &^ f", "FrameFlags.Del no longer clears the given bits (a toggle sets a flag that was not set)")
 	}
+	// a frame body adds to, or takes from, the flags its header already has: it
+	// never replaces them (the header may carry flags another part of the body,
+	// or the caller, has set)
+	sites, bad := 0, []string{}
+	for _, fi := range p.frameImpls() {
+		for _, m := range []string{"Serialize", "Deserialize"} {
+			fd := p.decl("(*" + fi.Name + ")." + m)
+			if fd == nil || fd.Type.Params == nil || len(fd.Type.Params.List) != 1 {
+				continue
+			}
+			hdr := fd.Type.Params.List[0].Names[0].Name
+			// locals that hold the header's flags
+			held := map[string]bool{}
+			ast.Inspect(fd.Body, func(n ast.Node) bool {
+				if as, ok := n.(*ast.AssignStmt); ok && len(as.Lhs) == 1 && len(as.Rhs) == 1 && squash(p.text(as.Rhs[0])) == hdr+".Flags()" {
+					held[p.text(as.Lhs[0])] = true
+				}
+				return true
+			})
+			inspectCalls(fd.Body, func(c *ast.CallExpr) {
+				if p.calleeOf(c) != "(*FrameHeader).SetFlags" || len(c.Args) != 1 {
+					return
+				}
+				sites++
+				okArg := false
+				if inner, ok := c.Args[0].(*ast.CallExpr); ok {
+					name := p.calleeOf(inner)
+					if name == "(FrameFlags).Add" || name == "(FrameFlags).Del" {
+						if sel, ok := inner.Fun.(*ast.SelectorExpr); ok {
+							base := squash(p.text(sel.X))
+							okArg = base == hdr+".Flags()" || held[base]
+						}
+					}
+				}
+				if !okArg {
+					bad = append(bad, fi.Name+"."+m+" "+p.pos(c.Pos()))
+				}
+			})
+		}
+	}
+	r.check(len(bad) == 0 && sites >= 8, "frame bodies add to the header's flags and never replace them", "frame.go", fmt.Sprintf("%d SetFlags calls, each header.Flags().Add/Del(...)", sites), fmt.Sprintf("a frame body sets its header's flags to something that is not derived from the flags the header has (%v; %d sites): a flag set earlier (END_STREAM next to PADDED) is lost", bad, sites))
 }
 
 func ruleAccessorPairing(p *Prog, r *Out) {
